@@ -289,7 +289,8 @@ def run(ctx):
             r = reg[k]
             vals = {"iarf": ["add", "remove", "force"], "bool": ["true"], "unum": [1, 3], "num": [1]}.get(r["kind"], [])
             for v in vals:
-                for inp, lang, txt, name in rng.sample(inputs, 6 if thorough else 2):
+                pool = [x for x in inputs if x[1] == "OC"] if k.startswith("mod_sort_oc") else inputs
+                for inp, lang, txt, name in rng.sample(pool, min(len(pool), 6 if thorough else 2)):
                     o = {k: v}
                     jobs.append(pipeline.Job(name, sc.cfg(None, o), inp, lang, {"opts": o, "text": txt, "kind": "single"}))
         # (b) random combinations
@@ -307,7 +308,7 @@ def run(ctx):
                  "mod_enum_last_comma", "mod_infinite_loop"]]
         for fam in fams:
             for _ in range(60 if thorough else 14):
-                inp, lang, txt, name = rng.choice(inputs)
+                inp, lang, txt, name = rng.choice([x for x in inputs if x[1] == "OC"] if (fam[0].startswith("mod_sort") and rng.random() < 0.4) else inputs)
                 o = {}
                 for k in fam:
                     if rng.random() < 0.5:
